@@ -207,6 +207,9 @@ def main():
         OPS.update({k[3:]: v for k, v in vars(ops_store).items() if k.startswith('op_')})
     except ImportError as e:
         sys.stderr.write('ops_store not loaded: %s\n' % e)
+    if os.environ.get('SPIL_CACHE_CAP'):
+        from spil.util import caching
+        caching._max_size = int(os.environ['SPIL_CACHE_CAP'])     # force eviction (the capacity is read at call time)
     if os.environ.get('SPIL_FIRST_CFG'):
         from spil.sid.pathops.pathconfig import get_path_config
         get_path_config(os.environ['SPIL_FIRST_CFG'])
